@@ -31,7 +31,8 @@ MUT = [
     ("'cache_stats'", lambda: 'cache_stats', lambda c: c == 'cache_stats'),
 ]
 NMUT = len(MUT)
-NOPS = 7
+NOPS = 8
+ARG0 = {'m': 7}          # a dict passed to apply as an argument (op kind 7 stores it)
 
 
 def mk_vars(a, b, frozen, with_cache):
@@ -73,7 +74,7 @@ def num(v):
   return 500 if isinstance(v, (dict, FrozenDict)) else v
 
 
-def run_program(scope, x, prog, log):
+def run_program(scope, x, prog, log, argd=None):
   """the program under test: a sequence of scope operations"""
   y = x
   child = None
@@ -101,6 +102,8 @@ def run_program(scope, x, prog, log):
         y = y + (2 if sc.is_mutable_collection(col) else 0)
       elif kind == 6:
         sc.put_variable(col, name, {'n': y})
+      elif kind == 7:
+        sc.put_variable(col, name, argd if argd is not None else dict(ARG0))
       log.append('ok')
     except errors.ModifyScopeVariableError:
       log.append('ModifyScopeVariableError')
@@ -142,12 +145,16 @@ def ref_program(model, mutable_ref, x, prog):
       c = coll(col, on_child, False)
       y = y + (num(c[name]) if c is not None and name in c else 1000)
       log.append('ok')
-    elif kind in (1, 6):
+    elif kind in (1, 6, 7):
       if not mut:
         log.append('ModifyScopeVariableError')
         continue
       c = coll(col, on_child, True)
-      c[name] = (y + 1) if kind == 1 else {'n': y}
+      val = (y + 1) if kind == 1 else ({'n': y} if kind == 6 else dict(ARG0))
+      if isinstance(val, dict) and isinstance(c.get(name), dict):
+        c[name] = {**c[name], **val}       # documented: sub-dicts are merged
+      else:
+        c[name] = val
       log.append('ok')
     elif kind in (2, 3):
       if (name, col) in reserved[on_child]:
@@ -221,10 +228,13 @@ def apply_contract(mi, frozen, with_cache, a, b, x, n, k0, c0, n0, h0, k1, c1, n
   mut_arg, mut_pristine = mk(), mk()
   for rep in range(2):
     log = []
-    out = S.apply(lambda sc, xx: run_program(sc, xx, prog, log), mutable=mut_arg)(
-        variables, x)
+    argd = dict(ARG0)
+    out = S.apply(lambda sc, xx, dd: run_program(sc, xx, prog, log, dd),
+                  mutable=mut_arg)(variables, x, argd)
     if type(mut_arg) is not type(mut_pristine) or mut_arg != mut_pristine:
       return False
+    if argd != ARG0:
+      return False                    # an argument of apply was modified
     snap2, ids2 = snapshot(variables)
     if snap2 != snap or ids2 != ids:
       return False                    # input changed (content or container ids)
@@ -467,9 +477,9 @@ def obligations(tier):
   if not quick:
     obs.append(
         Ob('core_apply_pairs', apply_contract,
-           dict(mi=I(0, 5), frozen=B(), with_cache=I(0, 0), a=I(-3, 3), b=I(-3, 3),
+           dict(mi=I(0, 3), frozen=B(), with_cache=I(0, 0), a=I(-3, 3), b=I(-3, 3),
                 x=I(-3, 3), n=I(2, 2), **{**prog, 'k2': I(0, 0), 'c2': I(0, 0),
                                           'n2': I(0, 0), 'h2': I(0, 0)}),
            split=('mi', 'k0', 'k1', 'c0'), timeout=1200, funcs=F,
-           bounds='all ordered pairs of ops, first 6 mutable forms'))
+           bounds='all ordered pairs of ops, first 4 mutable forms'))
   return obs
